@@ -42,6 +42,8 @@ pub struct Searcher {
     timer: SearchTimer,
     repetition: RepetitionTable,
     history: HistoryTable,
+    #[cfg(flounder_verif)]
+    pub verif: VerifSearchHooks,
 }
 
 impl Searcher {
@@ -56,6 +58,8 @@ impl Searcher {
             timer: SearchTimer::new(),
             repetition: RepetitionTable::new(),
             history: HistoryTable::new(),
+            #[cfg(flounder_verif)]
+            verif: VerifSearchHooks::default(),
         }
     }
 
@@ -95,6 +99,8 @@ impl Searcher {
             if !self.timer.should_stop() {
                 best_score = result.score;
                 best_move = result.best_move;
+                #[cfg(flounder_verif)]
+                self.verif.iterations_completed.set(self.verif.iterations_completed.get() + 1);
 
                 self.cache_search_result(board, &result, current_depth);
                 self.timer
@@ -205,6 +211,8 @@ impl Searcher {
 
             alpha = max(alpha, score);
             if alpha >= beta {
+                #[cfg(flounder_verif)]
+                self.verif.cutoffs.set(self.verif.cutoffs.get() + 1);
                 if current_move.move_type == MoveType::Quiet {
                     self.killer_moves.store(current_move, ply);
                     self.history.record_cutoff(&current_move, depth);
@@ -214,6 +222,8 @@ impl Searcher {
         }
 
         let bound = self.determine_bound(best_result.score, original_alpha, beta);
+        #[cfg(flounder_verif)]
+        self.verif_note_store(board);
         self.store_in_transposition_table(board, &best_result, depth, bound);
 
         best_result
@@ -233,6 +243,8 @@ impl Searcher {
             self.move_generator.generate_quiescence_moves(board)
         };
 
+        #[cfg(flounder_verif)]
+        self.verif_record_qmoves(board, currently_in_check, &moves);
         self.order_captures(&mut moves, board);
 
         // Checkmate detection
@@ -284,6 +296,8 @@ impl Searcher {
 
         // Store TT move for move ordering even if depth is insufficient
         context.tt_best_move = entry.best_move;
+        #[cfg(flounder_verif)]
+        self.verif.note_probe(entry.depth, depth, &entry.bounds, entry.eval, alpha, beta);
 
         // Only use entry if it was searched to sufficient depth
         if entry.depth < depth {
@@ -420,6 +434,107 @@ impl Searcher {
 impl Default for Searcher {
     fn default() -> Self {
         Self::new()
+    }
+}
+
+/// Verification hooks (only with `--cfg flounder_verif`): counters and accessors the harness
+/// in /verif needs.  Nothing here changes what the search does.
+#[cfg(flounder_verif)]
+#[derive(Default)]
+pub struct VerifSearchHooks {
+    /// probes that found an entry for the position
+    pub tt_found: std::cell::Cell<u64>,
+    /// probes that returned a stored result (entry deep enough and usable)
+    pub tt_hits: std::cell::Cell<u64>,
+    /// ... of which the entry came from a strictly deeper search than asked for
+    pub tt_deeper_hits: std::cell::Cell<u64>,
+    /// beta cut-offs in the main search
+    pub cutoffs: std::cell::Cell<u64>,
+    /// iterations of the last/ongoing find_best_move calls that completed
+    pub iterations_completed: std::cell::Cell<u64>,
+    /// keys stored by `negamax` while the node deadline had already passed
+    pub aborted_store_keys: Vec<u64>,
+    /// when true, every quiescence node's (board, in_check, move list) is recorded
+    pub record_qmoves: bool,
+    pub qmoves: Vec<(Board, bool, Vec<Move>)>,
+}
+
+#[cfg(flounder_verif)]
+impl VerifSearchHooks {
+    fn note_probe(&self, entry_depth: u8, depth: u8, bounds: &Bounds, eval: i32, alpha: i32, beta: i32) {
+        self.tt_found.set(self.tt_found.get() + 1);
+        if entry_depth < depth {
+            return;
+        }
+        let used = match bounds {
+            Bounds::Exact => true,
+            Bounds::Lower => max(alpha, eval) >= beta,
+            Bounds::Upper => alpha >= min(beta, eval),
+        };
+        if used {
+            self.tt_hits.set(self.tt_hits.get() + 1);
+            if entry_depth > depth {
+                self.tt_deeper_hits.set(self.tt_deeper_hits.get() + 1);
+            }
+        }
+    }
+}
+
+#[cfg(flounder_verif)]
+impl Searcher {
+    fn verif_note_store(&mut self, board: &Board) {
+        if self.timer.verif.expired(self.timer.nodes()) {
+            let key = self.zobrist.hash(board);
+            self.verif.aborted_store_keys.push(key);
+        }
+    }
+
+    fn verif_record_qmoves(&mut self, board: &Board, in_check: bool, moves: &[Move]) {
+        if self.verif.record_qmoves {
+            self.verif.qmoves.push((*board, in_check, moves.to_vec()));
+        }
+    }
+
+    /// Deadline in nodes (None: back to the wall clock).
+    pub fn verif_set_node_limit(&mut self, limit: Option<u64>) {
+        self.timer.verif.node_limit = limit;
+    }
+
+    /// Watchdog: panic when a search expands more than `cap` nodes.
+    pub fn verif_set_hard_cap(&mut self, cap: Option<u64>) {
+        self.timer.verif.hard_cap = cap;
+    }
+
+    pub fn verif_timer(&self) -> &SearchTimer {
+        &self.timer
+    }
+
+    pub fn verif_nodes(&self) -> u64 {
+        self.timer.nodes()
+    }
+
+    pub fn verif_repetition_snapshot(&self) -> Vec<u64> {
+        self.repetition.verif_snapshot()
+    }
+
+    pub fn verif_hash(&self, board: &Board) -> u64 {
+        self.zobrist.hash(board)
+    }
+
+    pub fn verif_tt_entries(&self) -> Vec<crate::transposition::Entry> {
+        self.transposition_table.verif_entries()
+    }
+
+    /// The predicate `negamax` evaluates below the root.
+    pub fn verif_is_repetition_draw(&self, board: &Board) -> bool {
+        self.is_draw_by_repetition(board)
+    }
+
+    /// One full-window search at exactly `depth` (no shallower iterations, no clock).
+    pub fn verif_search_fixed(&mut self, board: &Board, depth: u8) -> (i32, Option<Move>) {
+        self.timer.start(None);
+        let result = self.search_position(board, depth);
+        (result.score, result.best_move)
     }
 }
 
